@@ -1,5 +1,211 @@
-//! Harness binary for property C05 (line protocol; see /verif/vlib/BUILDER_GUIDE.md).
+//! Protocols of C05 (and the token part of C14), implementation side, all in-process:
+//!
+//! `lex <hex>`      the real `TokenProducer` (hook H6) run to the end of the text:
+//!                  `T <kind>:<hextext>@l0.c0-l1.c1;... E <l0.c0-l1.c1:code>,... [P <hexmsg>]`
+//!                  (tokens yielded before a panic are kept; `P` only if the lexer panicked).
+//! `full <name> <hex> [<name> <hex>]...`
+//!                  the whole front half of the pipeline on one or several modules, each stage under
+//!                  `catch_unwind`, in a 64 MiB-stack thread with a wall-clock watchdog:
+//!                  parse -> (pretty-print module if no syntax error) -> type check -> text error
+//!                  report -> IDE error format -> `compile_sources`.
+//!                  `ok syn=<n> errs=<n> printed=<0|1> compiled=<ok|errors>` |
+//!                  `panic@<stage> <hexmsg>` | `timeout@<stage>`
+use samlang_errors::{ErrorDetail, ErrorSet};
+use samlang_heap::{Heap, ModuleReference};
+use samverif_harness::util::*;
+use std::collections::HashMap;
+use std::panic::{AssertUnwindSafe, catch_unwind};
+use std::sync::{Arc, Mutex, mpsc};
+use std::time::Duration;
+
+fn syntax_errors(error_set: &ErrorSet) -> Vec<String> {
+  // BTreeSet order: location, then detail
+  error_set
+    .errors()
+    .iter()
+    .filter_map(|e| match &e.detail {
+      ErrorDetail::InvalidSyntax(reason) => {
+        let code = match reason.as_str() {
+          "Invalid escape in string." => "esc",
+          "Invalid token." => "tok",
+          "Not a 32-bit integer." => "int",
+          _ => "other",
+        };
+        let l = e.location;
+        Some(format!("{}.{}-{}.{}:{}", l.start.0, l.start.1, l.end.0, l.end.1, code))
+      }
+      _ => None,
+    })
+    .collect()
+}
+
+fn lex(text: &str) -> String {
+  let mut heap = Heap::new();
+  let mut error_set = ErrorSet::new();
+  let mut toks: Vec<String> = Vec::new();
+  let r = catch_unwind(AssertUnwindSafe(|| {
+    samlang_parser::verif_hooks::produce_tokens_with(
+      text,
+      ModuleReference::DUMMY,
+      &mut heap,
+      &mut error_set,
+      |(kind, text, (l0, c0, l1, c1))| {
+        toks.push(format!("{kind}:{}@{l0}.{c0}-{l1}.{c1}", hex(text.as_bytes())));
+      },
+    );
+  }));
+  let errs = syntax_errors(&error_set);
+  let mut out = format!(
+    "T {} E {}",
+    if toks.is_empty() { "-".to_string() } else { toks.join(";") },
+    if errs.is_empty() { "-".to_string() } else { errs.join(",") }
+  );
+  if let Err(e) = r {
+    out.push_str(&format!(" P {}", hex(format!("{} [{}]", panic_msg(&e), panic_at()).as_bytes())));
+  }
+  out
+}
+
+/// location of the most recent panic (file:line), recorded by the panic hook
+static LAST_PANIC_AT: Mutex<String> = Mutex::new(String::new());
+
+fn panic_at() -> String {
+  LAST_PANIC_AT.lock().map(|s| s.clone()).unwrap_or_default()
+}
+
+fn stage(cell: &Arc<Mutex<&'static str>>, s: &'static str) {
+  *cell.lock().unwrap() = s;
+}
+
+fn full_pipeline(mods: Vec<(String, String)>, st: Arc<Mutex<&'static str>>) -> String {
+  let mut heap = Heap::new();
+  let mut error_set = ErrorSet::new();
+  let mut sources: HashMap<ModuleReference, String> = HashMap::new();
+  let mut refs = Vec::new();
+  for (name, text) in &mods {
+    let parts: Vec<String> = name.split('.').map(|s| s.to_string()).collect();
+    let m = heap.alloc_module_reference_from_string_vec(parts);
+    sources.insert(m, text.clone());
+    refs.push(m);
+  }
+  // 1. parse every module
+  stage(&st, "parse");
+  let mut parsed = HashMap::new();
+  for m in &refs {
+    let module =
+      samlang_parser::parse_source_module_from_text(&sources[m], *m, &mut heap, &mut error_set);
+    parsed.insert(*m, module);
+  }
+  let syn = error_set.errors().iter().filter(|e| e.is_syntax_error()).count();
+  // 2. printer (only meaningful without syntax errors)
+  let mut printed = 0;
+  if syn == 0 {
+    stage(&st, "print");
+    for m in &refs {
+      let _ = samlang_printer::pretty_print_source_module(&heap, 100, &parsed[m]);
+      let _ = samlang_printer::pretty_print_source_module(&heap, 20, &parsed[m]);
+    }
+    printed = 1;
+  }
+  // 3. checker (std sources are added so that imports of std.* resolve like in the CLI)
+  stage(&st, "check");
+  for (m, s) in samlang_parser::builtin_std_raw_sources(&mut heap) {
+    if !sources.contains_key(&m) {
+      let module = samlang_parser::parse_source_module_from_text(&s, m, &mut heap, &mut error_set);
+      parsed.insert(m, module);
+      sources.insert(m, s);
+    }
+  }
+  let _ = samlang_checker::type_check_sources(&parsed, &mut error_set);
+  // 4. diagnostics rendering
+  stage(&st, "report");
+  let text = error_set.pretty_print_error_messages(&heap, &sources);
+  let nerr = error_set.errors().len();
+  if (nerr == 0) != text.is_empty() {
+    return format!("panic@report {}", hex(b"error report empty/non-empty mismatch"));
+  }
+  stage(&st, "ide");
+  for e in error_set.errors() {
+    let _ = e.to_ide_format(&heap, &sources);
+  }
+  // 5. the real compile entry point (re-parses, checks, lowers, optimises, emits)
+  stage(&st, "compile");
+  let compiled = match samlang_compiler::compile_sources(&mut heap, sources.clone(), refs.clone(), false)
+  {
+    Ok(_) => "ok",
+    Err(_) => "errors",
+  };
+  if (compiled == "ok") != (nerr == 0) {
+    return format!("panic@compile {}", hex(b"compile_sources result disagrees with the error set"));
+  }
+  format!("ok syn={syn} errs={nerr} printed={printed} compiled={compiled}")
+}
+
+fn full(args: &[&str], timeout: Duration) -> String {
+  let mut mods = Vec::new();
+  for pair in args.chunks(2) {
+    if pair.len() != 2 {
+      return "bad-op".to_string();
+    }
+    mods.push((pair[0].to_string(), unhex_str(pair[1])));
+  }
+  let st: Arc<Mutex<&'static str>> = Arc::new(Mutex::new("start"));
+  let st2 = st.clone();
+  let (tx, rx) = mpsc::channel();
+  let spawned = std::thread::Builder::new().stack_size(64 << 20).spawn(move || {
+    let st3 = st2.clone();
+    let r = catch_unwind(AssertUnwindSafe(move || full_pipeline(mods, st3)));
+    let ans = match r {
+      Ok(s) => s,
+      Err(e) => format!(
+        "panic@{} {}",
+        *st2.lock().unwrap(),
+        hex(format!("{} [{}]", panic_msg(&e), panic_at()).as_bytes())
+      ),
+    };
+    let _ = tx.send(ans);
+  });
+  if spawned.is_err() {
+    return "bad-thread".to_string();
+  }
+  match rx.recv_timeout(timeout) {
+    Ok(s) => s,
+    Err(_) => format!("timeout@{}", *st.lock().unwrap()),
+  }
+}
+
 fn main() {
-  eprintln!("c05: not implemented yet");
-  std::process::exit(2);
+  std::panic::set_hook(Box::new(|info| {
+    if let (Some(l), Ok(mut g)) = (info.location(), LAST_PANIC_AT.lock()) {
+      let f = l.file();
+      *g = format!("{}:{}", f.rsplit("crates/").next().unwrap_or(f), l.line());
+    }
+  }));
+  // the checker runs on rayon's global pool: give its workers the same 64 MiB stack
+  let _ = rayon::ThreadPoolBuilder::new().stack_size(64 << 20).build_global();
+  let timeout_ms: u64 =
+    std::env::var("C05_TIMEOUT_MS").ok().and_then(|s| s.parse().ok()).unwrap_or(20000);
+  use std::io::{BufRead, Write};
+  let stdin = std::io::stdin();
+  let mut out = std::io::BufWriter::new(std::io::stdout().lock());
+  for line in stdin.lock().lines() {
+    let line = line.unwrap();
+    let line = line.trim_end();
+    if line.is_empty() {
+      continue;
+    }
+    let t: Vec<&str> = line.split(' ').collect();
+    let ans = match t[0] {
+      "lex" if t.len() == 2 => lex(&unhex_str(t[1])),
+      "full" => full(&t[1..], Duration::from_millis(timeout_ms)),
+      _ => "bad-op".to_string(),
+    };
+    writeln!(out, "{ans}").unwrap();
+    if ans.starts_with("timeout@") {
+      // the stuck worker thread cannot be killed: answer and leave (the caller restarts us)
+      out.flush().unwrap();
+      std::process::exit(3);
+    }
+  }
+  out.flush().unwrap();
 }
